@@ -557,6 +557,26 @@ fn seg_pop_expired_mtu_probe_n01() {
     }
 }
 
+// @verif id=SEG.popx.sent props=C01 tier=quick
+// @functions Segments::pop_expired_mtu_probe
+// @bounds from every valid state with N = 1 segment; retransmit_timed_out arbitrary; max_probe_retransmissions 0..=8
+// @asserts a probe that expires (is popped for re-segmentation under the same sequence numbers) was never transmitted. FAILS on the pinned tree by design of the probe-expiry mechanism: KNOWN FINDING (known_findings.json): a transmitted probe may have been delivered with only its ACKs lost; re-splitting it then duplicates stream bytes at the receiver (native demonstration: findings/probe_expiry_resegmentation_demo.diff)
+// @assumes representation invariant on the pre-state
+#[kani::proof]
+#[kani::unwind(4)]
+fn seg_expired_probe_was_never_transmitted() {
+    let (mut s, ghost) = any_segments::<1>();
+    let timed_out: bool = kani::any();
+    let max_rtx: usize = kani::any();
+    kani::assume(max_rtx <= 8);
+    let r = s.pop_expired_mtu_probe(timed_out, max_rtx);
+    kani::cover!(matches!(r, PopExpiredProbe::Expired { .. }), "probe expired");
+    if let PopExpiredProbe::Expired { .. } = r {
+        assert!(ghost[0].sent_kind == 0, "C01: a sequence number that was already transmitted is never re-segmented (an expired probe may have been delivered with only its ACKs lost)");
+    }
+    std::mem::forget(s);
+}
+
 // ---- flight size and send iteration ----------------------------------------------------------
 
 // @verif id=SEG.flight props=C05,C09,C10 tier=quick
